@@ -20,6 +20,83 @@ use std::panic::{catch_unwind, AssertUnwindSafe};
 use ops::{Cfg, Op};
 use world::World;
 
+/// Replay files may contain wire macros that are expanded against the packets actually on the
+/// wire (so a canonical history survives renumbering of packets by an unrelated change):
+///   OP wire deliverall            deliver every packet on the wire, in id order
+///   OP wire deliverexcept <cls>   … except those of class <cls> (they stay on the wire)
+///   OP wire dropall <cls>         drop every packet of class <cls>
+///   OP wire round                 egress, then deliverall
+/// Classes: pureack | zwack (pure ACK advertising window 0) | winupd (pure ACK with window > 0) |
+/// rst | syn | synack | data | fin | any. The expanded concrete ops are what the trace records.
+enum Macro {
+    DeliverAll,
+    DeliverExcept(String),
+    DropAll(String),
+    Round,
+}
+
+enum Step {
+    Op(Op),
+    Macro(Macro),
+}
+
+fn in_class(p: &world::WirePkt, cls: &str) -> bool {
+    use turmoil_net::Transport;
+    let Transport::Tcp(s) = &p.pkt.payload else { return false };
+    let pure = s.flags.ack && !s.flags.syn && !s.flags.fin && !s.flags.rst && s.payload.is_empty();
+    match cls {
+        "any" => true,
+        "pureack" => pure,
+        "zwack" => pure && s.window == 0,
+        "winupd" => pure && s.window > 0,
+        "rst" => s.flags.rst,
+        "syn" => s.flags.syn && !s.flags.ack,
+        "synack" => s.flags.syn && s.flags.ack,
+        "data" => !s.payload.is_empty(),
+        "fin" => s.flags.fin,
+        _ => false,
+    }
+}
+
+impl Macro {
+    fn parse_line(line: &str) -> Option<Macro> {
+        let t: Vec<&str> = line.split_whitespace().collect();
+        match t.as_slice() {
+            ["OP", "wire", "deliverall"] => Some(Macro::DeliverAll),
+            ["OP", "wire", "round"] => Some(Macro::Round),
+            ["OP", "wire", "deliverexcept", c] => Some(Macro::DeliverExcept(c.to_string())),
+            ["OP", "wire", "dropall", c] => Some(Macro::DropAll(c.to_string())),
+            _ => None,
+        }
+    }
+    fn run(&self, w: &mut World) {
+        match self {
+            Macro::Round => {
+                w.apply(Op::Egress);
+                Macro::DeliverAll.run(w);
+            }
+            Macro::DeliverAll => {
+                let ids: Vec<u64> = w.wire.iter().map(|p| p.id).collect();
+                for id in ids {
+                    w.apply(Op::Deliver { id });
+                }
+            }
+            Macro::DeliverExcept(c) => {
+                let ids: Vec<u64> = w.wire.iter().filter(|p| !in_class(p, c)).map(|p| p.id).collect();
+                for id in ids {
+                    w.apply(Op::Deliver { id });
+                }
+            }
+            Macro::DropAll(c) => {
+                let ids: Vec<u64> = w.wire.iter().filter(|p| in_class(p, c)).map(|p| p.id).collect();
+                for id in ids {
+                    w.apply(Op::Drop { id });
+                }
+            }
+        }
+    }
+}
+
 pub struct Out {
     w: std::io::BufWriter<std::fs::File>,
     pub n: u64,
@@ -143,26 +220,34 @@ fn main() {
     if let Some(file) = replay {
         let text = std::fs::read_to_string(&file).expect("read replay file");
         let mut cfg = Cfg::default();
-        let mut opsv: Vec<Op> = Vec::new();
+        let mut opsv: Vec<Step> = Vec::new();
         for line in text.lines() {
             let line = line.trim();
             if line.starts_with("CFG") {
                 cfg = Cfg::parse_line(line).expect("bad CFG line");
             } else if line.starts_with("OP ") {
                 match Op::parse_line(line) {
-                    Some(op) => opsv.push(op),
-                    None => {
-                        eprintln!("cannot parse: {line}");
-                        std::process::exit(2);
-                    }
+                    Some(op) => opsv.push(Step::Op(op)),
+                    None => match Macro::parse_line(line) {
+                        Some(m) => opsv.push(Step::Macro(m)),
+                        None => {
+                            eprintln!("cannot parse: {line}");
+                            std::process::exit(2);
+                        }
+                    },
                 }
             } else if line == "END" {
                 break;
             }
         }
         o.case("replay", seed, &cfg, |w| {
-            for op in opsv {
-                w.apply(op);
+            for st in opsv {
+                match st {
+                    Step::Op(op) => {
+                        w.apply(op);
+                    }
+                    Step::Macro(m) => m.run(w),
+                }
             }
         });
     } else {
